@@ -674,6 +674,25 @@ def ev_eq_clone(t, cx):
     return ("value", r)
 
 
+def ev_eq_rewritten(t, cx):
+    """Compare the target with UNEQUAL near-copies of itself: the outputs of label-preserving rewriting passes (they
+    rebuild Variable nodes with the old label around a new expression).  An unsuccessful comparison must leave both
+    operands alone, too."""
+    r = []
+    passes = (apply_algebra_lowering, renumber_indices, apply_derivatives, remove_complex_nodes)
+    for fn in passes:
+        c = cx.step(lambda fn=fn: fn(t))
+        if isinstance(c, str) or c is None or kind_of(c) != kind_of(t):
+            continue
+        cx.secondary(c)
+        r += _eq_steps(t, c, cx)
+        if isinstance(t, Expr) and t.ufl_shape == c.ufl_shape and not t.ufl_free_indices:
+            # the two trees under one root (sorting and sharing happen inside the constructor and in the estimators)
+            r.append(cx.step(lambda c=c: str(t - c)))
+            r.append(cx.step(lambda c=c: A.estimate_total_polynomial_degree(t - c)))
+    return ("value", r)
+
+
 def ev_eq_rebuild(t, cx):
     c = cx.U.make()
     cx.secondary(c)
@@ -1040,6 +1059,7 @@ EVENTS = [
     Event("pickle", FEIB, ev_pickle),
     Event("eq_clone", FEI, ev_eq_clone, core=True),
     Event("eq_rebuild", FEIB, ev_eq_rebuild, core=True, first_only=True),
+    Event("eq_rewritten", FEI, ev_eq_rewritten, core=True),
     # --- form operators
     Event("lhs", (F,), ev_lhs),
     Event("rhs", (F,), ev_rhs),
